@@ -61,11 +61,11 @@ NAMES = ["a", "b", "c", "d", "n1", "n2", "x"]
 
 class RefModel:
     def __init__(self, spec, unversioned):
-        self.r = {"root": {"tree_kind": "dir", "tv": True, "root": True}}
+        self.r = {"root": {"tree_kind": "dir", "tv": True, "root": True, "kind": "dir"}}
         for path, kind, _d, _x in spec:
-            self.r["t:" + path] = {"tree_kind": kind, "tv": True}
+            self.r["t:" + path] = {"tree_kind": kind, "tv": True, "kind": kind}
         for path, kind, _d, _x in unversioned:
-            self.r["t:" + path] = {"tree_kind": kind, "tv": False}
+            self.r["t:" + path] = {"tree_kind": kind, "tv": False, "kind": kind}
         self.new_ids = set()
         self.n = 0
 
@@ -106,11 +106,37 @@ class RefModel:
             return not s.get("new_contents") and not s.get("root")
         return False
 
+    def tame(self, op):
+        """Stricter than ok(): keeps the script inside what the conflict resolvers are
+        written for (no overwrite of live content, executability only on versioned files,
+        loops only through existing directories, nothing versioned without contents)."""
+        k = op[0]
+        r = self.r
+        if k in ("new_file", "new_directory", "new_symlink", "create_path"):
+            if k == "new_file" and op[6] is not None and not op[5]:
+                return False
+            return k != "create_path" or True
+        s = r[op[-1]]
+        if k in ("create_file", "create_directory", "create_symlink"):
+            return s.get("kind") is None
+        if k == "set_executability":
+            return self.versioned(op[-1]) and s.get("kind") == "file"
+        if k == "version_file":
+            return s.get("kind") is not None
+        if k == "adjust_path":
+            par = r[op[2]]
+            if op[2] == op[-1]:
+                return False
+            if s.get("tree_kind") is None and par.get("tree_kind") is None and not par.get("root"):
+                return True
+            return True
+        return True
+
     def apply(self, op):
         k = op[0]
         r = self.r
         if k in ("new_file", "new_directory", "new_symlink", "create_path"):
-            s = {"tree_kind": None, "tv": False}
+            s = {"tree_kind": None, "tv": False, "kind": {"new_file": "file", "new_directory": "dir", "new_symlink": "symlink", "create_path": None}[k]}
             if k != "create_path":
                 s["new_contents"] = True
             r[op[1]] = s
@@ -129,6 +155,7 @@ class RefModel:
         s = r[op[-1]]
         if k == "delete_contents":
             s["removed"] = True
+            s["kind"] = None
         elif k == "unversion_file":
             s["removed_id"] = True
         elif k == "version_file":
@@ -138,6 +165,7 @@ class RefModel:
             s["execset"] = True
         elif k in ("create_file", "create_directory", "create_symlink"):
             s["new_contents"] = True
+            s["kind"] = {"create_file": "file", "create_directory": "dir", "create_symlink": "symlink"}[k]
 
 
 def generate(rng, tier):
@@ -164,6 +192,7 @@ def generate(rng, tier):
         "create_directory": 1,
         "create_symlink": 1,
     }
+    tame = rng.random() < 0.75
     if rng.random() < 0.3:  # a run biased towards moves (loops, duplicates)
         weights["adjust_path"] = 12
     pool = [k for k, w in weights.items() for _ in range(w)]
@@ -203,10 +232,10 @@ def generate(rng, tier):
             op = [k, lab]
         else:
             op = [k, "tgt", lab]
-        if m.ok(op):
+        if m.ok(op) and (not tame or m.tame(op)):
             m.apply(op)
             ops.append(op)
-    return {"fmt": fmt, "tree": spec, "unversioned": unversioned, "ops": ops}
+    return {"fmt": fmt, "style": "tame" if tame else "wild", "tree": spec, "unversioned": unversioned, "ops": ops}
 
 
 # --------------------------------------------------------------------------------------
